@@ -8,7 +8,7 @@
 From Coq Require Import List NArith Bool.
 From SV Require Import Text.Str Text.Prog Text.Tokenizer.
 From SV Require Import KV.KvBase KV.KvLex KV.KvParse KV.KvSer KV.KvSym KV.KvParseProofs KV.KvRoundtrip KV.KvStrip
-  KV.KvRefine KV.KvDelivery.
+  KV.KvRefine KV.KvDelivery KV.KvExport.
 Import ListNotations.
 Open Scope N_scope.
 
@@ -173,3 +173,28 @@ Proof. exact roundtrip_any_delivery. Qed.
 
 Theorem kv_delivery_hypotheses_satisfiable : tables_match ref_tables ref_escfg' = true.
 Proof. exact ref_tables_match. Qed.
+
+(** * The deprecated writer export()
+    [export_doc X E d] interprets the regenerated templates [X] of the generator ([''.join(tree.export())]); [xcfg_ok X]
+    is discharged for today's source.  The round trip holds for it exactly as for serialise(). *)
+Theorem kv_export_roundtrip : forall X E P, xcfg_ok X = true -> esc_ok E = true -> pcfg_ok P = true ->
+  forall flag_on O d, po_single_block O = false ->
+  po_newline_keys O || doc_names_ok d = true -> po_newline_values O || doc_values_ok d = true ->
+  parse_kv_opts P O E flag_on (export_doc X E d) = POk d.
+Proof. exact export_roundtrip_doc. Qed.
+
+Theorem kv_export_roundtrip_node : forall X E P, xcfg_ok X = true -> esc_ok E = true -> pcfg_ok P = true ->
+  forall flag_on O k, po_single_block O = false ->
+  po_newline_keys O || names_ok k = true -> po_newline_values O || values_ok k = true ->
+  parse_kv_opts P O E flag_on (export_node X E k) = POk [k].
+Proof. exact export_roundtrip_node. Qed.
+
+Theorem kv_export_hypotheses_satisfiable : xcfg_ok (ref_expcfg (PEsc FName)) = true.
+Proof. exact ref_xcfg_ok. Qed.
+
+(** The pinned export() (block name raw) is rejected, with the same witness as for _serialise. *)
+Theorem kv_export_raw_block_name_refuted :
+  xcfg_ok (ref_expcfg (PRaw FName)) = false /\
+  parse_kv ref_pcfg ref_escfg (fun _ => false) (export_doc (ref_expcfg (PRaw FName)) ref_escfg raw_block_witness)
+  = PErr (ELex LUnterminated).
+Proof. exact (conj raw_export_rejected raw_export_refuted). Qed.
